@@ -133,6 +133,32 @@ def run_pipeline(cases, wd, tag, trace=True, chunk=4000):
     return res
 
 
+def compare_cuts(case, obs, exp, asis=None):
+    must = []
+    asis = asis if asis is not None else []
+    # prefixes (C17)
+    if exp.get("cuts") and "cuts" in obs:
+        for n, (ec, oc) in enumerate(zip(exp["cuts"], obs["cuts"])):
+            epp = {k: v for k, v in ec["parse"].items() if k != "exact"}
+            if oc["parse"] != epp:
+                sev = ec["parse"].get("exact") or oc["parse"].get("ok") or oc["parse"].get("err") != "Truncated" \
+                    or not (n < oc["parse"].get("expected", 0) <= len(case["bytes"])) or oc["parse"].get("actual") != n
+                if sev:
+                    must.append((["C17"], "prefix of %d/%d bytes: impl %s spec %s" % (n, len(case["bytes"]), json.dumps(oc["parse"]), json.dumps(epp))))
+                else:
+                    asis.append("prefix %d byte counts: impl %s spec %s" % (n, json.dumps(oc["parse"]), json.dumps(epp)))
+            if bool(oc["hdr"].get("ok")) != ec["hdr"]:
+                must.append((["C17"], "header decoder on a %d-byte prefix: impl %s spec ok=%s" % (n, json.dumps(oc["hdr"]), ec["hdr"])))
+    for ec, oc in zip(exp.get("cutlist") or [], obs.get("cutlist") or []):
+        n = ec["n"]
+        epp = {k: v for k, v in ec["parse"].items() if k != "exact"}
+        if oc["parse"] != epp:
+            must.append((["C17"], "prefix of %d/%d bytes: impl %s spec %s" % (n, len(case["bytes"]), json.dumps(oc["parse"]), json.dumps(epp))))
+        if bool(oc["hdr"].get("ok")) != ec["hdr"]:
+            must.append((["C17"], "header decoder on a %d-byte prefix: impl %s spec ok=%s" % (n, json.dumps(oc["hdr"]), ec["hdr"])))
+    return must
+
+
 def first_exposed(exp_exposed, ty):
     for e in exp_exposed:
         if e["type"] == ty:
@@ -158,8 +184,16 @@ def compare(case, obs, exp, hang=None):
     fp_related = (not ep["ok"] and ep.get("err") == "FingerprintMismatch")
     if ep["ok"] != op["ok"]:
         pids = ["C02"] + (["C09"] if fp_related or has_fp(case) else [])
-        must.append((pids, "parser %s a buffer the specification %s (%s)" % (
-            "accepted" if op["ok"] else "rejected: " + json.dumps(op), "rejects: " + json.dumps(ep) if not ep["ok"] else "accepts", "")))
+        must.append((pids, "parser %s a buffer the specification %s" % (
+            "accepted" if op["ok"] else "rejected (" + json.dumps(op) + ")", "rejects: " + json.dumps(ep) if not ep["ok"] else "accepts")))
+        # a wrongly accepted buffer is still held to the exposure rule (C10)
+        hyp = exp.get("hyp") or {}
+        if op["ok"] and "exposed" in hyp and isinstance(obs.get("acc", {}).get("exposed"), list):
+            got = [(e["type"], e["value"]) for e in obs["acc"]["exposed"]]
+            want = [(e["type"], e["value"]) for e in hyp["exposed"]]
+            if got != want:
+                must.append((["C10"], "accepted buffer exposes %s; the exposure rule allows %s" % ([t for t, _ in got], [t for t, _ in want])))
+        must += compare_cuts(case, obs, exp)
         return must, asis
     if not ep["ok"]:
         if "causes" in exp:
@@ -212,7 +246,7 @@ def compare(case, obs, exp, hang=None):
         fe = first_exposed(ea["exposed"], lk["type"])
         want_found = fe is not None
         if lk["found"] != want_found or lk["has"] != want_found or (want_found and lk["value"] != fe["value"]):
-            pids = ["C10"] if lk["type"] in (8, 28, 32808) else ["C02", "C10"]
+            pids = ["C02", "C10"]
             must.append((pids, "lookup of type %d: impl found=%s has=%s value=%s, specification: %s" % (
                 lk["type"], lk["found"], lk["has"], str(lk["value"])[:80], ("first exposed value %s" % str(fe["value"])[:80]) if fe else "absent")))
     for t in oa.get("typed", []) if isinstance(oa.get("typed"), list) else []:
@@ -267,26 +301,7 @@ def compare(case, obs, exp, hang=None):
                         asis.append("UNKNOWN-ATTRIBUTES duplicates: impl %s spec %s" % (got.get("unknown"), want["unknown"]))
                 elif got.get("unknown") is not None:
                     must.append((["C16"], "a 400 response carries UNKNOWN-ATTRIBUTES %s" % got.get("unknown")))
-    # prefixes (C17)
-    if exp.get("cuts") and "cuts" in obs:
-        for n, (ec, oc) in enumerate(zip(exp["cuts"], obs["cuts"])):
-            epp = {k: v for k, v in ec["parse"].items() if k != "exact"}
-            if oc["parse"] != epp:
-                sev = ec["parse"].get("exact") or oc["parse"].get("ok") or oc["parse"].get("err") != "Truncated" \
-                    or not (n < oc["parse"].get("expected", 0) <= len(case["bytes"])) or oc["parse"].get("actual") != n
-                if sev:
-                    must.append((["C17"], "prefix of %d/%d bytes: impl %s spec %s" % (n, len(case["bytes"]), json.dumps(oc["parse"]), json.dumps(epp))))
-                else:
-                    asis.append("prefix %d byte counts: impl %s spec %s" % (n, json.dumps(oc["parse"]), json.dumps(epp)))
-            if bool(oc["hdr"].get("ok")) != ec["hdr"]:
-                must.append((["C17"], "header decoder on a %d-byte prefix: impl %s spec ok=%s" % (n, json.dumps(oc["hdr"]), ec["hdr"])))
-    for ec, oc in zip(exp.get("cutlist") or [], obs.get("cutlist") or []):
-        n = ec["n"]
-        epp = {k: v for k, v in ec["parse"].items() if k != "exact"}
-        if oc["parse"] != epp:
-            must.append((["C17"], "prefix of %d/%d bytes: impl %s spec %s" % (n, len(case["bytes"]), json.dumps(oc["parse"]), json.dumps(epp))))
-        if bool(oc["hdr"].get("ok")) != ec["hdr"]:
-            must.append((["C17"], "header decoder on a %d-byte prefix: impl %s spec ok=%s" % (n, json.dumps(oc["hdr"]), ec["hdr"])))
+    must += compare_cuts(case, obs, exp, asis)
     return must, asis
 
 
@@ -436,7 +451,11 @@ def c02(rep, tier, seed, wd):
                 m = mutate(m, rng)
             muts.append({"bytes": m, "src": "mutant of generated message %d" % g["id"]})
     gcs = [{"bytes": g["bytes"], "src": "generated message %d" % g["id"]} for g in gm]
-    allc = cases + gcs + muts
+    huge = huge_messages(rng, 3 if tier == "quick" else 5)
+    for hm in list(huge):
+        for _ in range(2):
+            huge.append({"bytes": mutate(hm["bytes"], rng), "src": "mutant of " + hm["src"]})
+    allc = cases + gcs + muts + huge
     triples = run_pipeline(allc, wd, "c02", trace=False)
     report_must(rep, "C02", triples, "case")
     acc = sum(1 for (_c, o, e, _h) in triples if e["parse"]["ok"])
